@@ -852,7 +852,7 @@ func GenCase(r *vfutil.Rand, mode string, dbs int) *Case {
 		used := map[string]bool{}
 		for i := range c.KVs {
 			base := fmt.Sprintf("k%d", i)
-			key := vfutil.Pick(r, []string{"{t}" + base, base + "{t}", "a{" + base + "}z", "}" + base + "{", "{{" + base + "}}", base, "{" + base, "{}" + base})
+			key := vfutil.Pick(r, []string{"{t}" + base, base + "{t}", "a{" + base + "}z", "}" + base + "{", "{{" + base + "}}", base, "{" + base, "{}" + base, "{}", "}{"})
 			id := fmt.Sprintf("%d/%s", c.KVs[i].DB, c.TKey([]byte(key)))
 			if used[id] {
 				key = base
@@ -932,7 +932,7 @@ func ExhaustiveTwins(mode string) []*Case {
 // policy × restore.
 func ExhaustiveHashTag(mode string) []*Case {
 	var out []*Case
-	for _, key := range []string{"{tag}key", "ke{y}", "}k{"} {
+	for _, key := range []string{"{tag}key", "ke{y}", "}k{", "{}", "}{"} {
 		for _, ty := range []int{0, 1, 4} {
 			for _, pol := range []string{"replace", "ignore", "error"} {
 				for _, restore := range []bool{false, true} {
